@@ -87,7 +87,8 @@ CLAIMED = {
              "loop nests; IMPORTED leaf classes through the new `ext` leaf (a class's entries + the entries of the class its "
              "generated _adjoint_linop returns): ConvolveData / ConvolveDataAdjoint / ConvolveFilter / ConvolveFilterAdjoint in the "
              "1-D single-channel case from C08's conv1_entries / data_adj_entries / filt_adj_entries (conv_leaf_proved), FFT / IFFT "
-             "over C in N dimensions, any axes, centred or not, from C05's ifft_table_eq_conjTranspose (fft_leaf_proved); "
+             "over C in N dimensions, any axes, centred or not, from C05's ifft_table_eq_conjTranspose (fft_leaf_proved), Wavelet / InverseWavelet in 1-D over scalars with trivial "
+             "conjugation, any length / level / even filter pair, from C10's iwt1_is_adjoint (wave_leaf_proved_partial); "
              "FiniteDifference: the Expr tree is GENERATED from the factory's source and consists of proved leaves only "
              "(finiteDifference_leaves); hence adj_denote_leaves: for every tree over those classes <A x, y> = <x, A.H y> and swapped "
              "shapes hold with NO hypothesis, and normal_gram_leaves (<A.N x, z> = <A x, A z>). The adjoint rules themselves are "
@@ -95,17 +96,22 @@ CLAIMED = {
              "if/else and the R*S*M plumbing, the two sum-axes helpers, Conj/Add/Compose/Hstack/Vstack/Diag, the opaque pairs "
              "FFT<->IFFT, Wavelet<->InverseWavelet, Convolve*<->*Adjoint, NUFFT<->NUFFTAdjoint) and proved equal to the model's adj "
              "(adjLeaf_eq_gen, adj_eq_gen, multiplySumAxes_gen, matmulSumAxes_gen, adjOpaque_table), so adj_denote_gen states the "
-             "tree theorem about the generated definitions. Tie: translator (Gen.Block, Gen.Interp, formulas, Gen.LinopAdjoint) + "
+             "tree theorem about the generated definitions; the `_apply` side of twelve classes (Identity, Reshape, Transpose, "
+             "Resize, Flip, Circshift, Downsample, Upsample, Sum, Slice, ArrayToBlocks, Interpolate) is translated too (applyGen: "
+             "which numpy / util / block / interp primitive with which attributes in which argument positions, bound through the "
+             "callee's signature read from util.py) and proved to be what the model's leafSem0 denotes (leafSem0_eq_prim). Tie: translator (Gen.Block, Gen.Interp, formulas, Gen.LinopAdjoint) + "
              "exact comparison of the implementation's matrices of A and A.H (basis vectors + Gaussian-integer vector) with the "
              "model's entries for 19 leaf classes, random trees, the generated FiniteDifference tree and the imported convolution "
              "leaves (both entry lists of the ext leaf vs the real operator and its .H).",
         note="Trusted: Lean kernel; translator (gen_c01: per-class map attribute -> constructor parameter read from __init__; the "
-             "normalised attributes Sum.axes / Tile.axes / Transpose.axes are pinned by source text); the entry models of the "
-             "leaves (`_apply` side: Transpose, Sum/Tile, Slice/Embed, Flip, Multiply, MatMul as numpy contracts) are hand "
-             "transcriptions tied by the exact correspondence, not regenerated from the `_apply` bodies; FFT leaves rest on C05's "
+             "normalised attributes Sum.axes / Tile.axes / Transpose.axes are pinned by source text); the semantics of the "
+             "numpy / util primitives (transpose, sum, slicing, flip, roll, resize, ...) are the model's hand-written contracts "
+             "tied by the exact correspondence; the `_apply` bodies of Tile, Embed, BlocksToArray, Gridding, Multiply, MatMul, "
+             "RightMatMul (not a single call on `input`, or a derived ishape) are hand transcriptions tied by the exact "
+             "correspondence, not regenerated; FFT leaves rest on C05's "
              "table (tied to fourier.py by C05's check, irrational entries are not run through the C01 driver); oracle-only "
-             "(dot test, pairing pinned by adjOpaque_table): Wavelet/InverseWavelet (C10 proves iwt1_is_adjoint on its own list "
-             "model, real scalars, no entry lists), multi-channel / N-D / batched convolutions (C08 has data_adjoint_mc / _2d; only "
+             "(dot test, pairing pinned by adjOpaque_table): Wavelet/InverseWavelet in N-d / several axes or over complex scalars (only the 1-D "
+             "real case is bridged from C10; the filter bank of a wavelet name is a parameter of the leaf), multi-channel / N-D / batched convolutions (C08 has data_adjoint_mc / _2d; only "
              "the 1-D single-channel entry lists are bridged), NUFFT/NUFFTAdjoint and Kaiser-Bessel Interpolate/Gridding "
              "(irrational weights; C06/C07), ToDevice/AllReduce (no arithmetic), the MRI factories (C16); IEEE rounding not "
              "modelled.",
